@@ -20,7 +20,7 @@ func init() {
 			"R10.3 every token's Start is the cursor position read before any advance since the dispatcher was entered; " +
 			"R10.4 identifier/number literals are input[entry position : current position], the identifier's type is the keyword lookup of that same string; " +
 			"R10.5 the keyword lookup returns the table's value on a hit and IDENT otherwise; every keyword is spelled with identifier bytes and its type is produced by no fixed lexeme; " +
-			"R10.6 the after-newline flag is cleared on entry of the trivia skipper and set before every advance over a byte that may be '\\n' (tracked per byte value), only the skipper writes it, and every token constructor copies it and a fresh copy of the trivia list; " +
+			"R10.6 the after-newline flag is cleared on entry of the trivia skipper and set before every advance over a byte that may be '\\n' (tracked per byte value) — or the line break is reported by a private helper through a bool that is true whenever it happened, and the flag is set from that report before the skipper returns —, only the skipper and its private helpers write it, no computed value is stored into it once it may have been set, and every token constructor copies it and a fresh copy of the trivia list; " +
 			"R10.7 tiling: the skipper only advances over whitespace or inside a `//` comment; every dispatcher path consumes exactly the bytes of the token it builds (fixed lexemes: #advances = length and literal = lexeme; slice scanners: no trailing advance; delimited scanners: one trailing advance); " +
 			"R10.8 termination: no feasible cycle without an advance, and no feasible cycle at all once the cursor sits at end of input; " +
 			"R10.9 end of input is a fixed point of the advance primitive (position, line and column stop growing) and the end-of-input token is decided by position, not by the byte value 0. " +
@@ -1472,8 +1472,8 @@ func r10_6(c *Ctx, lf *lexFacts) {
 			sort.Slice(sts, func(i, j int) bool { return sts[i].Pos() < sts[j].Pos() })
 			for _, st := range sts {
 				n++
-				key := fmt.Sprintf("%s: computed value stored into the after-newline flag #%d", skf.Name(), n)
-				c.check(!cx.flagOver[st], key, st.Pos(), "the flag cannot have been set before on this path", "a computed value is assigned to the after-newline flag although the flag may already have been set in this gap: an earlier line break is forgotten when the value is false (assign only true, or OR the value in)")
+				key := fmt.Sprintf("%s: value other than true stored into the after-newline flag #%d", skf.Name(), n)
+				c.check(!cx.flagOver[st], key, st.Pos(), "the flag cannot have been set before on this path", "a value other than true is assigned to the after-newline flag although the flag may already have been set in this gap: an earlier line break is forgotten when the value is false (assign only true, or OR the value in)")
 			}
 		}
 	}
